@@ -48,8 +48,13 @@ def main():
         rc = rep.finish(repo)
         sys.exit(rc)
     except AnalysisError as e:
+        # a rule instance already found violated is definite even if a later rule could not be decided
+        rc = 0
+        if rep.findings and repo is not None:
+            rep.note('analysis incomplete: %s' % e)
+            rc = rep.finish(repo)
         print('ANALYSIS-ERROR property=%s: %s' % (prop, e))
-        sys.exit(2)
+        sys.exit(1 if rc == 1 else 2)
     except SystemExit:
         raise
     except Exception:
